@@ -29,6 +29,13 @@ IsDate(x) == Len(x) = 7
 
 TrReset == IsEvent("Reset")
 
+\* NewDate(fields): the seven fields (each inside its own range: month 1..12, day 1..31,
+\* hour 0..23, ..., year 1700..3000) are a date exactly if the calendar has that day
+TrValid == /\ IsEvent("Valid")
+           /\ Len(Ev.d) = 7 /\ Yr(Ev.d) \in MinYear..MaxYear /\ Mon(Ev.d) \in 1..12 /\ Day(Ev.d) \in 1..31
+           /\ Hr(Ev.d) \in 0..23 /\ Mnt(Ev.d) \in 0..59 /\ Sec(Ev.d) \in 0..59 /\ Msec(Ev.d) \in 0..999   \* driver sanity
+           /\ Ev.ok = (IF InRange(Ev.d) THEN 1 ELSE 0)
+
 \* r = d.Plus(o...) where a 64-bit seconds/milliseconds offset was split by the driver
 \* into xd days and the rest; md = r.MinusDays(d); mq, mr: r.MinusMs(d) = mq * 86400000 + mr;
 \* cmp = order of r and d.  ok = 0: the code refused (exception / not a date).
@@ -73,7 +80,7 @@ TrParse == /\ IsEvent("Parse")
                  /\ InRange(t) => (Ev.ok = 1 /\ Ev.p = t)
                  /\ DayTooLarge(t) => Ev.ok = 0
 
-TraceNext == TrReset \/ TrPlus \/ TrDiff \/ TrLit \/ TrParse
+TraceNext == TrReset \/ TrValid \/ TrPlus \/ TrDiff \/ TrLit \/ TrParse
 
 TraceSpec == TraceInit /\ [][TraceNext]_tvars
 
